@@ -86,7 +86,7 @@ class Ctx:
         log("[build] harness built in %.1fs" % (time.time() - t))
         return self.bin
 
-    def harness(self, args, stdin=None, timeout=600, env=None):
+    def harness(self, args, stdin=None, timeout=3600, env=None):
         """Run the harness; returns stdout (str). A non-zero exit is a tool error (scenario-level
         panics are caught inside the harness or run in child processes and logged as data)."""
         if self.bin is None:
@@ -192,7 +192,7 @@ class Ctx:
         shutil.rmtree(meta, ignore_errors=True)
         return rc, out
 
-    def validate(self, module, scenarios, cfg=None, timeout=900, nproc=None, label=None,
+    def validate(self, module, scenarios, cfg=None, timeout=3600, nproc=None, label=None,
                  nontrivial=None, max_rejects=5):
         """scenarios: list of (scenario_obj, [event dicts]) produced by the real code.
         Validates the concatenation against spec/<module>.tla (one TLC process per chunk).
@@ -201,7 +201,11 @@ class Ctx:
         nproc = nproc or min(NCPU, 16)
         if not scenarios:
             return 0
-        chunks = [[] for _ in range(min(nproc, len(scenarios)))]
+        # one TLC process per chunk, at most nproc at a time; a chunk holds at most ~25 000 events (TLC keeps the whole
+        # recording in memory as one value)
+        total_events = sum(len(ev) for _, ev in scenarios)
+        nchunks = max(min(nproc, len(scenarios)), -(-total_events // 25000))
+        chunks = [[] for _ in range(min(nchunks, len(scenarios)))]
         for i, s in enumerate(scenarios):
             chunks[i % len(chunks)].append(s)
         t = time.time()
